@@ -51,7 +51,17 @@ let handle kind c =
       if not (blen name = limit && ends_with name marker) then
         prop "truncation-marked" (Printf.sprintf "untruncated-length=%d len=%d tail=%s"
                                     (blen (encode_raw prefix frames)) (blen name)
-                                    (show_b (List.filteri (fun i _ -> i >= blen name - 12) name)))
+                                    (show_b (List.filteri (fun i _ -> i >= blen name - 12) name)));
+      (* complete lines that survived the cut expand to the lines of the uncompressed rendering *)
+      let raw = string_of_bytes (encode_raw prefix frames) in
+      let kept = String.sub raw 0 (limit - List.length marker) in
+      let k = List.length (String.split_on_char '\n' kept) - 1 in
+      let first k l = List.filteri (fun i _ -> i < k) l in
+      let dl = first k (String.split_on_char '\n' (string_of_bytes dec)) in
+      let pl = first k (String.split_on_char '\n' (string_of_bytes (render_plain prefix frames))) in
+      if dl <> pl then
+        prop (if ditto_for_empty_path frames then "ditto-empty-path" else "decode-encode-truncated")
+          (Printf.sprintf "complete-lines=%d decoded=%S uncompressed=%S" k (String.concat "\n" dl) (String.concat "\n" pl))
     end else begin
       let plain = render_plain prefix frames in
       if dec <> plain then
